@@ -5,7 +5,8 @@ from contracts.spec_tree import *
 CORE = OPS + 'fm_core_features.py'
 
 
-def is_core(f):
+@spec
+def is_core(f: 'Feature') -> bool:
     """always selected by the tree alone: the root, or a member of a relation that forces all its members
     (card_min == number of members) whose owner is always selected"""
     if f.parent is None:
@@ -19,8 +20,19 @@ class GetCoreFeatures:
     """work-list loop over two lists: outside the verifier's subset (no bag reasoning); bounded stand-in.
     Frame clause (argument untouched) is decided by the effect analysis."""
 
+    kinds = {'core_features': 'list[Feature]', 'features': 'list[Feature]'}
+    native_only = ('post_exact',)
+
     def pre(feature_model):
         return wf()
+
+    # soundness of the work list: whatever has been collected or is waiting is core
+    def inv_1(feature_model, core_features, features):
+        return (all(x is not None and is_core(x) for x in core_features)
+                and all(x is not None and is_core(x) for x in features))
+
+    def post_sound(feature_model, result):
+        return all(is_core(x) for x in result)
 
     def post_exact(feature_model, result):
         exp = [f for f in feats(feature_model) if is_core(f)]
